@@ -18,7 +18,9 @@
      "nofieldclear"  cdatagcp_finalize leaves cd->destructor / cd->origobj set
      "gcnonenoop"    ffi.gc(w, None) does not clear the destructor
      "structnoref"   the pointer returned by ffi.new("struct s *") does not hold its struct object
-     "doublerelease" releasing a from_buffer view twice releases the Py_buffer twice *)
+     "doublerelease" releasing a from_buffer view twice releases the Py_buffer twice
+     "clear-after-call" cdatagcp_finalize clears cd->destructor / cd->origobj only after the destructor
+                     returned (a nested ffi.release() from inside the destructor runs it again) *)
 EXTENDS LifetimeIdeal, TLC
 CONSTANTS Variant, MaxAddr,
           KindsOn    \* the kinds of entities this configuration creates
@@ -33,9 +35,10 @@ HInit == [top |-> F, own |-> F,
           og |-> F,            \* origobj field non-NULL (W: holds the target; A, T: hold the raw memory)
           vr |-> F,            \* V: bufferview->obj non-NULL (holds one export of the exporter)
           sc |-> F,            \* self cycle: W: the destructor's closure refers to w; H: the object refers to h
-          ex |-> [o \in Ids |-> 0]]    \* E: ob_exports of the bytearray
+          ex |-> [o \in Ids |-> 0],    \* E: ob_exports of the bytearray
+          rl |-> [o \in Ids |-> 0]]    \* W: the wrapper that o's destructor releases (ffi.release) when it runs; 0: none
 NoEv == [op |-> "init", o |-> 0, k |-> "", t |-> 0, via |-> "", sc |-> FALSE, ran |-> <<>>, exc |-> "",
-         obs |-> FALSE, addr |-> 0]
+         obs |-> FALSE, addr |-> 0, nrel |-> <<>>, rl |-> 0]
 Init == IInit /\ h = HInit /\ ev = NoEv
 
 Set(f, o, v) == [f EXCEPT ![o] = v]
@@ -50,7 +53,8 @@ TopHeldR(g, o, nm, cy) == \/ nm[o] \/ cy[o]
                           \/ \E w \in Ids : kind[w] = "W" /\ g.top[w] /\ g.og[w] /\ tgt[w] = o
                           \/ kind[o] = "E" /\ \E v \in Ids : kind[v] = "V" /\ g.top[v] /\ g.vr[v] /\ tgt[v] = o
 
-R(g, ran) == [g |-> g, ran |-> ran]
+R(g, ran) == [g |-> g, ran |-> ran, nrel |-> <<>>]
+RN(g, ran, nrel) == [g |-> g, ran |-> ran, nrel |-> nrel]
 \* the owner object of S / T loses its holder `top`: freed unless the alias p[0] is referenced
 FreeOwn(g, o, al) ==
     IF ~g.own[o] \/ al[o] THEN R(g, <<>>)
@@ -59,17 +63,42 @@ FreeOwn(g, o, al) ==
                 IF g.dt[o] THEN <<o>> ELSE <<>>)
          ELSE R([g EXCEPT !.own = Set(@, o, FALSE)], <<>>)
 
+MaxNest == 2      \* the replayer's destructors nest ffi.release() at most this deep
+RECURSIVE FreeTop(_, _, _, _, _), FinalizeD(_, _, _, _, _, _), NestRel(_, _, _, _, _, _)
+
+\* The body of o's destructor (re-entrancy): the program's destructor may call ffi.release() on the
+\* wrapper g.rl[o] it holds by name - possibly o itself, which is being finalized right now.
+NestRel(g, o, d, nm, cy, al) ==
+    LET x == g.rl[o] IN
+    IF x = 0 \/ d = 0 THEN R(g, <<>>)
+    ELSE IF ~(kind[x] = "W" /\ nm[x] /\ g.top[x]) THEN R(g, <<>>)
+    ELSE LET f == FinalizeD(g, x, d - 1, nm, cy, al) IN RN(f.g, f.ran, <<x>> \o f.nrel)
+
+\* cdatagcp_finalize(cd): destructor = cd->destructor; origobj = cd->origobj; both fields are
+\* NULLed *before* gcp_finalize(destructor, origobj) calls the destructor and drops origobj
+FinalizeD(g, o, d, nm, cy, al) ==
+    LET keep  == Variant = "nofieldclear"
+        after == Variant = "clear-after-call"      \* broken: the fields are cleared after the call
+        clr(x) == [x EXCEPT !.dt = Set(@, o, FALSE), !.og = Set(@, o, FALSE)]
+        g2 == IF keep \/ after THEN g ELSE clr(g)
+        r0 == IF g.dt[o] THEN <<o>> ELSE <<>>
+        n  == IF g.dt[o] THEN NestRel(g2, o, d, nm, cy, al) ELSE R(g2, <<>>)      \* the destructor runs
+        g3 == IF after THEN clr(n.g) ELSE n.g
+    IN IF kind[o] = "W" /\ g.og[o] /\ ~keep /\ g3.top[tgt[o]] /\ ~TopHeldR(g3, tgt[o], nm, cy)
+       THEN LET x == FreeTop(g3, tgt[o], nm, cy, al) IN RN(x.g, r0 \o n.ran \o x.ran, n.nrel \o x.nrel)
+       ELSE RN(g3, r0 \o n.ran, n.nrel)
+
 \* tp_dealloc of the top object of o (nothing holds it any more), with everything that follows
-RECURSIVE FreeTop(_, _, _, _, _)
 FreeTop(g, o, nm, cy, al) ==
     LET g1 == [g EXCEPT !.top = Set(@, o, FALSE)] IN
-    CASE kind[o] = "W" ->        \* cdatagcp_dealloc: destructor(origobj); DECREF both
+    CASE kind[o] = "W" ->        \* cdatagcp_dealloc: fields read, object freed, destructor(origobj); DECREF both
            LET g2 == [g1 EXCEPT !.dt = Set(@, o, FALSE), !.og = Set(@, o, FALSE)]
                r0 == IF g.dt[o] THEN <<o>> ELSE <<>>
+               n  == IF g.dt[o] THEN NestRel(g2, o, MaxNest, nm, cy, al) ELSE R(g2, <<>>)
                t  == tgt[o]
-           IN IF g.og[o] /\ g2.top[t] /\ ~TopHeldR(g2, t, nm, cy)
-              THEN LET x == FreeTop(g2, t, nm, cy, al) IN R(x.g, r0 \o x.ran)
-              ELSE R(g2, r0)
+           IN IF g.og[o] /\ n.g.top[t] /\ ~TopHeldR(n.g, t, nm, cy)
+              THEN LET x == FreeTop(n.g, t, nm, cy, al) IN RN(x.g, r0 \o n.ran \o x.ran, n.nrel \o x.nrel)
+              ELSE RN(n.g, r0 \o n.ran, n.nrel)
       [] kind[o] = "A" ->
            R([g1 EXCEPT !.dt = Set(@, o, FALSE), !.og = Set(@, o, FALSE)], IF g.dt[o] THEN <<o>> ELSE <<>>)
       [] kind[o] \in {"S", "T"} ->   \* cdataowning_dealloc: Py_DECREF(structobj)
@@ -86,21 +115,14 @@ FreeTop(g, o, nm, cy, al) ==
 MaybeFree(g, o, nm, cy, al) ==
     IF g.top[o] /\ ~TopHeldR(g, o, nm, cy) THEN FreeTop(g, o, nm, cy, al) ELSE R(g, <<>>)
 
-\* cdatagcp_finalize(cd): destructor = cd->destructor; origobj = cd->origobj; both fields NULLed;
-\* gcp_finalize(destructor, origobj)
-Finalize(g, o) ==
-    LET keep == Variant = "nofieldclear"
-        g2 == IF keep THEN g ELSE [g EXCEPT !.dt = Set(@, o, FALSE), !.og = Set(@, o, FALSE)]
-        r0 == IF g.dt[o] THEN <<o>> ELSE <<>>
-    IN IF kind[o] = "W" /\ g.og[o] /\ ~keep
-       THEN LET x == MaybeFree(g2, tgt[o], name, cyc, alias) IN R(x.g, r0 \o x.ran)
-       ELSE R(g2, r0)
+Finalize(g, o) == FinalizeD(g, o, MaxNest, name, cyc, alias)
 
 \* ------------------------------------------------------------------ operations
 \* Each operation builds the event e (the model's prediction) and applies the ideal's effect.
 Ev(op, o, k, t, via, s, ran, exc, obs, addr) ==
     [op |-> op, o |-> o, k |-> k, t |-> t, via |-> via, sc |-> s, ran |-> ran, exc |-> exc, obs |-> obs,
-     addr |-> addr]
+     addr |-> addr, nrel |-> <<>>, rl |-> 0]
+EvN(e, nrel) == [e EXCEPT !.nrel = nrel]
 Step(e, g) == ev' = e /\ h' = g /\ Effect(e)
 Unused == {o \in Ids : kind[o] = ""}
 NextId == CHOOSE o \in Unused : \A p \in Unused : o <= p
@@ -112,11 +134,12 @@ New(k) ==               \* ffi.new(), allocator(), bytearray()
                           !.dt = Set(@, o, k \in {"A", "T"}), !.og = Set(@, o, k \in {"A", "T"})]
        IN Step(Ev("new", o, k, 0, "", FALSE, <<>>, "", FALSE, 0), g)
 
-NewW(t, s) ==           \* ffi.gc(t, destructor): allocate_gcp_object
+NewW(t, s, r) ==        \* ffi.gc(t, destructor): allocate_gcp_object; the destructor releases wrapper r (0: none)
     /\ Unused # {} /\ "W" \in KindsOn /\ kind[t] \in {"P", "S", "W", "A", "T", "V"} /\ name[t]
     /\ LET o == NextId
-           g == [h EXCEPT !.top = Set(@, o, TRUE), !.dt = Set(@, o, TRUE), !.og = Set(@, o, TRUE), !.sc = Set(@, o, s)]
-       IN Step(Ev("new", o, "W", t, "", s, <<>>, "", FALSE, 0), g)
+           g == [h EXCEPT !.top = Set(@, o, TRUE), !.dt = Set(@, o, TRUE), !.og = Set(@, o, TRUE), !.sc = Set(@, o, s),
+                          !.rl = Set(@, o, r)]
+       IN Step([Ev("new", o, "W", t, "", s, <<>>, "", FALSE, 0) EXCEPT !.rl = r], g)
 
 NewV(e) ==              \* ffi.from_buffer(e): PyObject_GetBuffer
     /\ Unused # {} /\ "V" \in KindsOn /\ kind[e] = "E" /\ name[e]
@@ -145,7 +168,7 @@ Drop(o) ==              \* del name
     /\ kind[o] # "" /\ name[o]
     /\ LET nm == [name EXCEPT ![o] = FALSE]
            x == MaybeFree(h, o, nm, cyc, alias)
-       IN Step(Ev("drop", o, "", 0, "", FALSE, x.ran, "", FALSE, 0), x.g)
+       IN Step(EvN(Ev("drop", o, "", 0, "", FALSE, x.ran, "", FALSE, 0), x.nrel), x.g)
 
 Cycle(o) ==             \* c = [o]; c.append(c); del c, name
     /\ kind[o] # "" /\ name[o]
@@ -162,7 +185,7 @@ Release(o, via) ==      \* ffi.release(x) / with x: cdata_exit
                             IN IF g2.top[e] /\ ~TopHeld(g2, e) THEN R([g2 EXCEPT !.top = Set(@, e, FALSE)], <<>>)
                                ELSE R(g2, <<>>)
                   [] OTHER -> R(h, <<>>)        \* "no effect on CPython"
-       IN Step(Ev("release", o, "", 0, via, FALSE, x.ran, "", FALSE, 0), x.g)
+       IN Step(EvN(Ev("release", o, "", 0, via, FALSE, x.ran, "", FALSE, 0), x.nrel), x.g)
 
 GcNone(o) ==            \* ffi.gc(w, None): Py_CLEAR(destructor)
     /\ kind[o] = "W" /\ name[o]
@@ -206,7 +229,7 @@ FromHandle(o) ==
     /\ Step(Ev("fromhandle", o, "", 0, "", FALSE, <<>>, "", TRUE, 0), h)
 
 Next == \/ \E k \in {"P", "S", "A", "T", "E"} : New(k)
-        \/ \E t \in Ids, s \in BOOLEAN : NewW(t, s)
+        \/ \E t \in Ids, s \in BOOLEAN, r \in Ids \cup {0} : NewW(t, s, r)
         \/ \E e \in Ids : NewV(e)
         \/ \E s \in BOOLEAN, a \in 1..MaxAddr : NewH(s, a)
         \/ \E o \in Ids : Alias(o)
